@@ -186,6 +186,15 @@ def _build(sg, kind, n):
         with sg.retain_grads():
             for _ in range(n): y = y * 1.0001
         return y, n
+    if kind == "sum_over_detached_constants":   # thousands of detach()ed targets used directly as operands of one loss
+        w = T(np.array([0.5, -0.25]), requires_grad=True)
+        base = T(np.array([1.0, 2.0]), requires_grad=True)
+        acc = None
+        for i in range(n):
+            c = (base * float(i % 7)).detach()
+            t = w * c
+            acc = t if acc is None else acc + t
+        return acc, 2 * n - 1
     if kind == "chain_from_many_leaves":     # every step brings in a new leaf (parameters of a deep model)
         y = T(np.array([1.0, -2.0]), requires_grad=True)
         for i in range(n): y = y * T(np.array([1.0001, 0.9999]), requires_grad=True)
@@ -317,11 +326,11 @@ def all_cases(tier):
             if kind == "ladder" and n > 20000: continue
             if (kind.startswith("untracked_layer_chain") or kind.startswith("frozen_layer_chain")) and n not in (100, 1000): continue
             out.append({"kind": kind, "n": n})
-    for shape in ("chain", "ladder", "tree", "fanin", "fanin_stack_computed", "chain_retain_each", "chain_built_under_retain_grads", "chain_from_many_leaves"):
+    for shape in ("chain", "ladder", "tree", "fanin", "fanin_stack_computed", "chain_retain_each", "chain_built_under_retain_grads", "chain_from_many_leaves", "sum_over_detached_constants"):
         for n in ((100, 250) if tier == "quick" else (100, 250, 600)):
             out.append({"kind": "cost", "shape": shape, "n": n})
-    for shape in ("chain", "chain_retain_each", "chain_built_under_retain_grads", "chain_from_many_leaves", "ladder"):
-        out.append({"kind": "cputime", "shape": shape, "n": 5000 if shape != "ladder" else 2500})
+    for shape in ("chain", "chain_retain_each", "chain_built_under_retain_grads", "chain_from_many_leaves", "ladder", "sum_over_detached_constants"):
+        out.append({"kind": "cputime", "shape": shape, "n": 5000 if shape not in ("ladder", "sum_over_detached_constants") else 2500})
     for shape, n in (("chain", 1500), ("chain", 6000), ("tree", 3000)):
         out.append({"kind": "heap", "shape": shape, "n": n})
     return out
